@@ -13,7 +13,7 @@ import (
 	gojson "github.com/goccy/go-json"
 	"pgregory.net/rapid"
 
-	"verif/harness/dec"
+	_ "verif/harness/dec"
 	"verif/harness/enc"
 	"verif/harness/gen"
 	"verif/harness/jsongen"
@@ -31,17 +31,17 @@ func TestMain(m *testing.M) {
 }
 
 type Case struct {
-	Spec    *gen.TypeSpec `json:"spec"`
-	Type    string        `json:"type"`
-	Doc     string        `json:"doc"`
-	Prepop  bool          `json:"prepop"`
-	Recipe  gen.Recipe    `json:"recipe"`
-	Entry   string        `json:"entry"` // unmarshal | withoption | context | decoder | decoder-usenumber | decoder-disallow
-	Active  []string      `json:"active"`
-	StdErr  string        `json:"std_err,omitempty"`
-	GoErr   string        `json:"go_err,omitempty"`
-	StdVal  string        `json:"std_val,omitempty"`
-	GoVal   string        `json:"go_val,omitempty"`
+	Spec   *gen.TypeSpec `json:"spec"`
+	Type   string        `json:"type"`
+	Doc    string        `json:"doc"`
+	Prepop bool          `json:"prepop"`
+	Recipe gen.Recipe    `json:"recipe"`
+	Entry  string        `json:"entry"` // unmarshal | withoption | context | decoder | decoder-usenumber | decoder-disallow
+	Active []string      `json:"active"`
+	StdErr string        `json:"std_err,omitempty"`
+	GoErr  string        `json:"go_err,omitempty"`
+	StdVal string        `json:"std_val,omitempty"`
+	GoVal  string        `json:"go_val,omitempty"`
 }
 
 func typeCfg() gen.TypeCfg {
@@ -220,9 +220,5 @@ func TestReplay(t *testing.T) {
 }
 
 func TestWitness(t *testing.T) {
-	if known.RunDecWitness() {
-		return
-	}
-	_ = dec.Differs
 	enc.RunWitness(t)
 }
